@@ -82,6 +82,9 @@ FULL_ALPHABET: Tuple[Op, ...] = (
 REREGISTER_OPS: Tuple[Op, ...] = (("reregister_file", "newest"), ("reregister_file", "oldest"))
 # a pre-built data file is registered (append_files) under a spelling that is not the canonical table-relative one
 SPELLED_OPS: Tuple[Op, ...] = (("register_spelled", "./data/"), ("register_spelled", "data//"), ("register_spelled", "/data/./"))
+# two pre-built files registered by ONE commit under the slash-less table-relative spelling ("data/x.parquet"; the
+# library's own appends store "/data/x.parquet"): a later partial delete rewrites their manifest
+REGISTER_TWO_OPS: Tuple[Op, ...] = (("register_two", "data/"), ("register_two", "/data/"))
 STEP_BACK_OPS: Tuple[Op, ...] = (("append_sb",), ("delete_file_sb", "newest"))
 AGE_LONG: Op = ("age", 11 * 24 * 3600)
 
@@ -218,7 +221,7 @@ def read_ts(view: Any, listing: Dict[str, float]) -> TS:
                     fp = reader.norm(e["data_file"]["file_path"])
                     raw_fp = e["data_file"]["file_path"]
                     sv.entries.append({"manifest": mp, "status": e["status"], "snapshot_id": e["snapshot_id"],
-                                       "spelling": "" if raw_fp.lstrip("/") == fp else raw_fp[:len(raw_fp) - len(fp.rsplit("/", 1)[-1])],
+                                       "spelling": "" if raw_fp == "/" + fp else raw_fp[:len(raw_fp) - len(fp.rsplit("/", 1)[-1])],
                                        "sequence_number": e.get("sequence_number"),
                                        "file_sequence_number": e.get("file_sequence_number"), "file_path": fp})
                     if fp not in seen:
@@ -711,6 +714,18 @@ def apply_op(table: Any, op: Op, pre: TS, model: Model, ctx: Ctx) -> Dict[str, A
             out["victim"] = f"data/{name}"
             with table.new_transaction() as tx:
                 tx.append_files([dataclasses.replace(df, file_path=op[1] + name)])
+        elif k == "register_two":
+            import dataclasses
+            import uuid as _uuid
+
+            dfm = table.file_manager.data_file_manager
+            built = []
+            for _ in range(2):
+                name = f"pre_{_uuid.uuid4().hex[:10]}.parquet"
+                df = dfm.write_data_file(f"data/{name}", [ctx.next_row()], table._get_current_schema())
+                built.append(dataclasses.replace(df, file_path=op[1] + name))
+            with table.new_transaction() as tx:
+                tx.append_files(built)
         elif k == "reregister_file":
             live = _live_files(pre, model)
             victim = live[0] if op[1] == "oldest" else live[-1]
